@@ -216,13 +216,30 @@ def createClient (cfg : Cfg) (c : Chain) (name : Bytes) : Chain × Res :=
   if cfg.rejectOwnName && name == c.self then (c, .err)
   else if c.clients name then (c, .err) else ({ c with clients := upd c.clients name true }, .ok)
 
+/-- `app/upgrades.go`, the registered `v0.2` software-upgrade handler, as run by `x/upgrade`'s BeginBlocker at the
+plan height:
+  * `EvmKeeper.DeleteAccount(packet contract)` — code, account and the whole **storage** of the packet contract
+    (its per-destination `sequences`, ack status, fees) — then `SetEVMCode` re-installs the byte code;
+    same for the agent contract (no state of this model). The endpoint contract is NOT deleted: only its code is
+    re-set, its storage (`outTokens`, bindings) survives;
+  * `xibc.ResetStates`: every key of the xibc store is deleted (clients, consensus states, relayers, receipts,
+    acknowledgements, commitments, next-send counters) and the default genesis is re-initialised (no client, no
+    sequence); only the native chain name is carried over.
+So BOTH counters of every destination are back to "unset ⇒ 1", no commitment and no receipt is left, no client
+exists, the escrow is untouched. The ghost lists restart: sequencing is per epoch (since genesis / the last upgrade). -/
+def upgrade (c : Chain) : Chain × Res :=
+  ({ c with clients := fun _ => false, nextSeq := fun _ => none, cseq := fun _ => 0, commits := fun _ => none,
+            receipts := fun _ => false, sent := [], acked := [] }, .ok)
+
 inductive Op where
+  | upgrade
   | tx (vmOk : Bool) (logs : List Log)
   | recv (r : RecvIn)
   | ack (a : AckIn)
   | createClient (name : Bytes)
 
 def step (cfg : Cfg) (env : Env) (c : Chain) : Op → Chain × Res
+  | .upgrade => upgrade c
   | .tx v ls => applyTx env c v ls
   | .recv r => recv cfg env c r
   | .ack a => ack env c a
